@@ -11,8 +11,21 @@
 (*   BestRankOK   the k leading columns are Stiefel, A - BestRank(k) is    *)
 (*                the sum of the remaining triplets (its range is          *)
 (*                orthogonal to the leading left and right vectors);       *)
-(*   Emit         prints {id, k, A, sig, best} - the exact best rank-k     *)
-(*                approximation for every k.                               *)
+(*   Emit         prints {id, k, A, sig, best, tail, ...} - the exact best *)
+(*                rank-k approximation and the sum of the k SMALLEST       *)
+(*                triplets (which = "SM") for every k.                     *)
+(*   TailOK       best(R-k) + tail(k) = A.                                 *)
+(*                                                                         *)
+(* Operators DECLARED SelfAdjoint (catalog field sa = TRUE; optional, old  *)
+(* catalogs without the field are read as sa = FALSE): the case carries    *)
+(* the real non-zero integer eigenvalues lam listed by decreasing modulus, *)
+(* V is the unitary eigenvector matrix.  Invariant:                        *)
+(*   SelfAdjointOK  the declaration is true (A Hermitian), A = V diag(lam) *)
+(*                V^H, Sigma = |lam|, U = V diag(sign lam); Emit exports   *)
+(*                whether the spectrum is indefinite and whether a         *)
+(*                negative eigenvalue dominates a positive one in modulus  *)
+(*                (then signs cannot be transported between the order by   *)
+(*                value and the order by modulus).                         *)
 (***************************************************************************)
 EXTENDS LeastSquares, SvdCatalog, Json, TLC
 
@@ -41,5 +54,22 @@ BestRankOK ==
     IN /\ IsStiefel(Uk) /\ IsStiefel(Vk)
        /\ MIsZero(MMul(MAdj(Uk), E)) /\ MIsZero(MMul(E, Vk))
        /\ MEq(MMul(MMul(MAdj(Uk), Case.A), Vk), SigmaMat(k, k, SubSeq(Case.sig, 1, k)))
-Emit == PrintT(ToJson([id |-> Case.id, k |-> k, A |-> Case.A, sig |-> Case.sig, best |-> Best]))
+\* the k smallest triplets
+Trail == TripletSum(Case.U, Case.sig, Case.V, R - k + 1, R)
+TailOK ==
+    /\ MEq(MAdd(Trail, IF k < R THEN BestRank(Case.U, Case.sig, Case.V, R - k) ELSE Zero(Case.U.r, Case.V.r)), Case.A)
+    /\ MEq(TripletSum(Case.U, Case.sig, Case.V, 1, k), Best)
+
+\* declared self-adjoint operators
+IsSA == "sa" \in DOMAIN Case /\ Case.sa
+Lam == IF IsSA THEN Case.lam ELSE <<>>
+SelfAdjointOK ==
+    IsSA => /\ IsHermitian(Case.A)
+            /\ Len(Case.lam) = R /\ \A i \in 1..R: Case.lam[i] # 0
+            /\ Case.sig = AbsSeq(Case.lam)
+            /\ MEq(Case.U, HermLeft(Case.V, Case.lam))
+            /\ MEq(SpectralForm(Case.V, Case.lam), Case.A)
+Emit == PrintT(ToJson([id |-> Case.id, k |-> k, A |-> Case.A, sig |-> Case.sig, best |-> Best, tail |-> Trail,
+                       sa |-> IsSA, lam |-> Lam, indefinite |-> IsSA /\ IsIndefiniteSpectrum(Lam),
+                       negdom |-> IsSA /\ NegativeDominatesPositive(Lam)]))
 =============================================================================
